@@ -569,7 +569,7 @@ def h_links(ctx):
         def byte(self, nm):
             self.n += 1
             return (self.n * 29) & 0xff
-    body, flat = T._layout_tree(_K(), E, forest, sib, top_off + 1, 0, 't')
+    body, flat = T._layout_tree(_K(), E, forest, sib, top_off + 1, 0, 't', 0, cfg.get('empty_parents', False))
     full = [1] + body + ([0] if forest else [])
     h, _ = unit_header(E.version, E.fmt64, E.little, E.addr, 0, 'compile', body_len=len(full))
     sec = h + full
@@ -577,6 +577,12 @@ def h_links(ctx):
 
     def answers(cu):
         out = []
+        # null entries are entries too (iteration yields them): their parent is the entry whose child list they close. They are
+        # asked first, so that nothing has filled in the navigation links yet
+        for w in want:
+            if w['null']:
+                p = cu.get_DIE_from_refaddr(w['off']).get_parent()
+                out.append((w['off'], None if p is None else p.offset, 'null'))
         for w in want:
             if w['null']:
                 continue
@@ -587,7 +593,7 @@ def h_links(ctx):
     di0, _ = mk_dwarfinfo(ctx, E.little, E.addr, debug_info=sec, debug_abbrev=ab)
     cold = answers(next(di0.iter_CUs()))
     # reference nesting
-    ref = []
+    ref = [(w['off'], (w['parent']['off'] if w['parent'] is not None else top_off), 'null') for w in want if w['null']]
     for w in want:
         if w['null']:
             continue
@@ -644,6 +650,8 @@ def _links_instances(tier):
                     continue
                 for s in scheds:
                     out.append(dict(env=e, forest=forest, sib=sib, schedule=s))
+                    if T._count(forest) in (2, 3) and s in ('cold', 'abandon:1', 'parents-first-backwards', 'top-children-then-iterate'):
+                        out.append(dict(env=e, forest=forest, sib=sib, schedule=s, empty_parents=True))
     return out
 
 
